@@ -101,6 +101,31 @@ def is_dyadic(costs):
     return all(Fraction(c).denominator in (1, 2, 4) for c in costs)
 
 
+LAYOUTS = ["contiguous", "transposed_storage", "offset_view", "strided_view"]
+
+
+def layout_of(case):
+    """Memory layout in which the tensors of this case are handed over (same values, different strides /
+    storage offset).  Derived from the case's own contents so that a replay reproduces it."""
+    if case.get("layout"):
+        return case["layout"]
+    return LAYOUTS[(3 * case.get("R", 0) + 5 * case.get("H", 0) + len(case["ref"])) % len(LAYOUTS)]
+
+
+def relayout(t, layout):
+    import torch
+
+    if layout == "transposed_storage" and t.dim() >= 2:
+        return t.transpose(0, -1).contiguous().transpose(0, -1)
+    if layout == "offset_view" and t.dim() >= 1 and t.size(0) > 0:
+        big = torch.cat([torch.full_like(t[:1], 3), t, torch.full_like(t[:1], 5)], 0)
+        return big[1:1 + t.size(0)]
+    if layout == "strided_view" and t.dim() >= 1 and t.numel() > 0:
+        big = torch.stack([t, torch.full_like(t, 7)], -1).flatten(-2)
+        return big[..., ::2]
+    return t
+
+
 def to_tensors(case):
     import torch
 
@@ -109,4 +134,5 @@ def to_tensors(case):
     hyp = torch.tensor(case["hyp"], dtype=torch.long).reshape(N, case["H"])
     if not case["batch_first"]:
         ref, hyp = ref.t().contiguous(), hyp.t().contiguous()
-    return ref, hyp
+    lay = layout_of(case)
+    return relayout(ref, lay), relayout(hyp, lay)
